@@ -154,3 +154,23 @@ Theorem C04_completed_next_logs_its_item : forall c x s g, ConcModel.cur s = Som
   exists rest, ConcModel.s_obs (ConcModel.complete c (ConcModel.OutItem x) s) = ConcModel.s_obs s ++ ConcModel.ObsItem x :: rest.
 Proof. exact ConcProg.completed_next_logs_its_item. Qed.
 Print Assumptions C04_completed_next_logs_its_item.
+
+(* The start-up handshake of Prefetcher / PinMemory / ParallelMapper (QueueSnapshotStore.get_initial_snapshot) with the liveness test as a
+   step of its own (InitSnap.v; D20).  A healthy pipeline must come up under EVERY interleaving of the read thread (append the initial
+   snapshot, forward the source, return) with the consumer's observations (timed get, thread.is_alive(), and - since commit 1ce2a70 - one
+   more get_nowait() when the thread is found dead).  The code before the fix is refuted by a four-move schedule; the code after it never
+   fails and obtains the snapshot.  Tie to the source: harness/tables.py check_initsnap runs the REAL method on every schedule of up to 9
+   moves on every run and coqc proves the outcomes equal to the model's. *)
+From PD Require InitSnap.
+Theorem C04_startup_handshake_never_fails : forall sched, InitSnap.cs (InitSnap.run true sched) <> InitSnap.CFail.
+Proof. exact InitSnap.fixed_code_never_fails. Qed.
+Print Assumptions C04_startup_handshake_never_fails.
+
+Theorem C04_startup_handshake_gets_snapshot : forall sched, InitSnap.rs (InitSnap.run true sched) <> InitSnap.RStart ->
+  InitSnap.cs (InitSnap.run true (sched ++ [InitSnap.MConsumer; InitSnap.MConsumer; InitSnap.MConsumer])) = InitSnap.CGot.
+Proof. exact InitSnap.fixed_code_gets_snapshot. Qed.
+Print Assumptions C04_startup_handshake_gets_snapshot.
+
+Theorem C04_startup_handshake_before_fix_refuted : exists sched, InitSnap.cs (InitSnap.run false sched) = InitSnap.CFail.
+Proof. exact InitSnap.old_code_refuted. Qed.
+Print Assumptions C04_startup_handshake_before_fix_refuted.
